@@ -22,6 +22,9 @@ pub const OPS: &[&str] = &[
     "ne-tail",
     "ne-length",
     "datum-tail-owned-drop",
+    // long datums whose elements are compound (pairs, vectors): ==, clone, drop
+    "datum-compound-pairs",
+    "datum-compound-vectors",
     // the same list written in fully dotted notation (1 . (1 . (1 . ()))): every element is one
     // nesting level, so the parser's bound must stop it (or it must be read without recursion)
     "parse-dotted-notation-value",
@@ -245,6 +248,32 @@ pub fn child_listop(c: &J) -> String {
                 // accepted or rejected — it has to come back
                 let r = if op.ends_with("value") { lexpr::from_reader(t.as_bytes()).map(std::mem::forget).is_ok() } else { lexpr::datum::from_reader(t.as_bytes()).map(std::mem::forget).is_ok() };
                 return format!("ok {}", r as usize);
+            }
+            "datum-compound-pairs" | "datum-compound-vectors" => {
+                let elem = if op.ends_with("pairs") { "(k . 1)" } else { "#(1 2)" };
+                let mut t = String::with_capacity(n * 8 + 8);
+                t.push('(');
+                for i in 0..n {
+                    if i > 0 {
+                        t.push(' ');
+                    }
+                    t.push_str(elem);
+                }
+                if dotted {
+                    t.push_str(" . t");
+                }
+                t.push(')');
+                let d = lexpr::datum::from_reader(t.as_bytes()).expect("parse");
+                let e = lexpr::datum::from_reader(t.as_bytes()).expect("parse");
+                if d != e {
+                    return "err == returned false for two parses of the same text".into();
+                }
+                let c = d.clone();
+                let k = c.value().as_cons().map(|c| c.iter().count()).unwrap_or(0);
+                drop(c);
+                drop(e);
+                drop(d);
+                return format!("ok {}", k);
             }
             "datum-tail-owned-drop" => {
                 // an owned datum made from the tail of a long list (its span tree starts at an
@@ -539,7 +568,7 @@ fn judge(acc: &mut Acc, rank: u64, c: &J, obs: &ChildObs) {
             let n = c["n"].as_u64().unwrap_or(0);
             let dotted = c["shape"].as_str() == Some("dotted");
             let expect: Option<u64> = match op {
-                "build-only" | "clone" | "parse-str-value" | "parse-slice-value" | "parse-reader-value" | "parse-reader-datum" | "parse-str-datum" | "datum-clone" | "datum-tail-owned-drop" | "datum-into-value" | "serde-to_value" | "serde-from_value"
+                "build-only" | "clone" | "parse-str-value" | "parse-slice-value" | "parse-reader-value" | "parse-reader-datum" | "parse-str-datum" | "datum-clone" | "datum-tail-owned-drop" | "datum-compound-pairs" | "datum-compound-vectors" | "datum-into-value" | "serde-to_value" | "serde-from_value"
                 | "serde-from_str" | "serde-ignored-any" | "serde-unknown-field" | "serde-unknown-field-str" | "serde-struct-field" | "serde-option-vec" | "serde-map-from_value" | "serde-map-to_value" | "serde-tuple-elements" | "cons.to_vec" | "cons.to_ref_vec" | "cons.into_vec" | "iter-count" | "into_iter-exhaust" => Some(n),
                 "value.to_vec" | "value.to_ref_vec" => Some(n),
                 // list_iter-exhaust continues past the first None and counts the tail of a dotted list;
